@@ -1,5 +1,6 @@
 pub mod aio;
 pub mod gen;
+pub mod idl;
 pub mod interp;
 pub mod protos;
 pub mod tree;
